@@ -24,6 +24,6 @@ PROP = {
 META = {
     "design_ref": "DESIGN.md section 4, C04",
     "technique": "model-based stateful PBT (rapidcheck) with real signals and 1-3 loops on their own threads (plus sub many_loops: up to 48 loops with one subscriber each); model = signal -> enabled subscribers per loop; per-delivery exact callback counts, thread affinity, chained previous handler (sentinel), sigaction() compared with the saved original whenever a signal loses its last subscriber; ASan and plain builds; epoll and select",
-    "level_text": "Generated histories of new/enable/disable/destroy on signal events (6 signals, several events per signal, persistent and one-shot, 1-3 loops each on its own thread) interleaved with deliveries raised one at a time; before each history every signal gets a generated original disposition (SIG_DFL, SIG_IGN, sa_handler sentinel, SA_SIGINFO sentinel, sentinel with sa_mask and SA_RESTART). After every delivery each modelled subscriber has exactly one more callback for that signal on its loop's thread, nobody else has any, the sentinel ran exactly once; whenever a signal's subscriber count drops to zero the kernel-reported disposition equals the original in handler, flags and mask. Exploration only.",
+    "level_text": "Generated histories of new/enable/disable/destroy on signal events (6 signals, several events per signal, persistent and one-shot, 1-3 loops each on its own thread) interleaved with deliveries raised one at a time; before each history every signal gets a generated original disposition (SIG_DFL, SIG_IGN, sa_handler sentinel, SA_SIGINFO sentinel, sentinel with sa_mask and SA_RESTART). After every delivery each modelled subscriber has exactly one more callback for that signal on its loop's thread, nobody else has any, the sentinel ran exactly once; whenever a signal's subscriber count drops to zero the kernel-reported disposition equals the original in handler, flags and mask. Exploration only. Later additions (seeding rounds): callbacks that enable/disable their own event or disable a sibling, bursts of deliveries while the loops are held busy, several subscription changes in one loop task, re-initialisation of an event object with another signal set, a signal added to an enabled event, subscriptions sigaction() refuses (SIGKILL in the set), original handlers with SA_RESETHAND, and the many_loops sub (1-48 loops owned by one thread, descriptor 0 free at the first subscription, refused subscription on the raising thread).",
     "level_note": "Trusted: the subscriber model, kill()/sigaction() semantics of Linux, the two-round-trip barrier per loop after each delivery (plus a 3 s settle bound for missing callbacks).",
 }
